@@ -20,7 +20,7 @@ ID = "C13"
 LEAN_MODULES = ["Barril.Props.C13"]
 DRIVERS = ["drv_heap"]
 DRIVER_EXE = "drv_heap"
-RULE = ("seeded histories (quick 220 x ~45 steps, thorough 2600 x ~50) over a pool that starts with objects of "
+RULE = ("seeded histories (quick 500 x ~45 steps, thorough 9000 x ~50) over a pool that starts with objects of "
         "every class and container kind (Scalar; Array/FixedArray over list, tuple, ndarray; FractionScalar; "
         "empty, unknown-caption and - through * and / - derived quantities; two Arrays over one list) and grows "
         "with every result: + - * / // between pool members and with plain numbers on either side, == and <, "
@@ -637,9 +637,9 @@ def _gen(ctx, salt, n, steps):
 
 def cases(ctx):
     if ctx.tier == "quick":
-        yield from _gen(ctx, "q", 220, 36)
+        yield from _gen(ctx, "q", 500, 36)
     else:
-        yield from _gen(ctx, "t", 2600, 42)
+        yield from _gen(ctx, "t", 9000, 42)
 
 
 def model_line(c):
@@ -877,28 +877,53 @@ def search(ctx):
     yield from _gen(ctx, "s", 400 if ctx.tier == "quick" else 3000, 40)
 
 
+def _remap(op, p):
+    """the operation with every pool index above `p` lowered by one; None when it refers to `p` itself"""
+    o = dict(op)
+    for k in ("i", "j"):
+        if k in o:
+            if o[k] == p:
+                return None
+            if o[k] > p:
+                o[k] -= 1
+    for k in ("a", "b", "v"):
+        if isinstance(o.get(k), dict) and "i" in o[k]:
+            if o[k]["i"] == p:
+                return None
+            if o[k]["i"] > p:
+                o[k] = dict(i=o[k]["i"] - 1)
+    return o
+
+
 def shrink(case, failure, ctx):
-    """cut the history after the failing step, then drop steps that add nothing to the pool"""
+    """cut the history after the failing step, then drop steps: those that add nothing to the pool, and those
+    whose new pool member nobody refers to later (later indices are renumbered)"""
     ops = list(case["_t"]["ops"])
     if isinstance(failure, dict) and "step" in failure:
         trial = ops[:failure["step"] + 1]
         f = oracle(_history(trial), ctx)
         if f:
             ops, failure = trial, f
-    try:
-        outs, _f, _a, _p = run_history(ctx, ops)
-    except Exception:
-        return _history(ops), failure
-    droppable = [i for i, o in enumerate(outs) if not ("ok" in o and o["ok"].get("t") == "obj" and o["ok"].get("fresh"))]
-    budget = 80
-    for i in reversed(droppable):
-        if budget <= 0:
+    budget = 120
+    i = len(ops) - 2
+    while i >= 0 and budget > 0:
+        try:
+            outs, _f, _a, _p = run_history(ctx, ops)
+        except Exception:
             break
-        if isinstance(failure, dict) and failure.get("step") == i:
-            continue
-        trial = ops[:i] + ops[i + 1:]
-        budget -= 1
-        f = oracle(_history(trial), ctx)
-        if f:
-            ops, failure = trial, f
+        o = outs[i] if i < len(outs) else {}
+        trial = None
+        if "ok" in o and o["ok"].get("t") == "obj" and o["ok"].get("fresh"):
+            p = o["ok"]["i"]
+            rest = [_remap(x, p) for x in ops[i + 1:]]
+            if all(x is not None for x in rest):
+                trial = ops[:i] + rest
+        else:
+            trial = ops[:i] + ops[i + 1:]
+        if trial:
+            budget -= 1
+            f = oracle(_history(trial), ctx)
+            if f:
+                ops, failure = trial, f
+        i -= 1
     return _history(ops), failure
